@@ -92,10 +92,10 @@ def _pairs(d):
     return sorted([int(k), int(v)] for k, v in d.items())
 
 
-def _observe(mapping, mat):
-    """Project the implementation's result to ints."""
+def _observe(mapping, mat, fac=1):
+    """Project the implementation's result to ints (counts divided by the common factor they were scaled with)."""
     D = _dense(mat)
-    return {"shape": list(D.shape), "M": [int(v) for v in D.ravel()],
+    return {"shape": list(D.shape), "M": [int(v) // fac if int(v) % fac == 0 else -1 for v in D.ravel()],
             "orig": _pairs(mapping.to_original), "mapped": _pairs(mapping.to_mapped)}
 
 
@@ -168,24 +168,28 @@ def replay_case(c):
             # element type and (dense) memory layout of the caller's matrix rotate over the cases: counts are
             # small integers, exactly representable in each of the types
             rot = int(A.sum()) + 3 * n + thr + (1 if ren else 0) + len(tag)
-            dt = ("int64", "float64", "int32", "float32")[rot % 4]
-            Ax = A.astype(dt)
+            dt = ("int64", "float64", "int32", "float32", "int16", "uint8")[rot % 6]
+            # trimming is invariant under a common positive factor on counts and threshold: for the narrow integer
+            # types the factor is chosen so that single counts still fit the type while row totals do not
+            fac = {"int16": 9000, "uint8": 60, "int32": 500000000}.get(dt, 1) if int(A.max()) <= 3 and (rot // 6) % 2 == 0 else 1
+            Ax = (A * fac).astype(dt)
             if tag == "ndarray":
                 x = (Ax.copy(), np.asfortranarray(Ax), np.ascontiguousarray(Ax.T).T)[(rot // 4) % 3]
             elif tag == "coo_matrix" and rot % 2 == 0 and int(A.sum()) > 0:
                 from props.c04 import make          # one entry of value 1 per count, as assigns_to_counts returns
                 x = make("coodup", A, dt)
+                fac = 1
             else:
                 x = cls(Ax)
             try:
-                mapping, out = trim_disconnected(x, threshold=thr, renumber_states=ren)
-                got = _observe(mapping, out)
+                mapping, out = trim_disconnected(x, threshold=thr * fac, renumber_states=ren)
+                got = _observe(mapping, out, fac)
             except Exception as ex:       # the property admits no error on these inputs
                 bad.append((site + "/raised-" + type(ex).__name__, "%s: %s" % (type(ex).__name__, ex)))
                 continue
             if type(out) is not exp_cls:
                 bad.append((site + "/type", {"got": type(out).__name__, "expected": c["tags"][tag]}))
-            if type(x) is not cls or x.dtype != np.dtype(dt) or not np.array_equal(_dense(x), A):
+            if type(x) is not cls or x.dtype != np.dtype(dt) or not np.array_equal(_dense(x), A * fac):
                 bad.append((site + "/input-modified", {"after": _dense(x).tolist(), "type": type(x).__name__}))
             k, diff = _match(got, alts, variant)
             if diff is None:
@@ -194,6 +198,45 @@ def replay_case(c):
                 for asp in diff:
                     bad.append((site + "/" + asp, {"got": got, "closest_allowed": alts[k][variant],
                                                    "n_allowed": len(alts)}))
+    # the same matrix embedded, by an order-preserving injection of the state ids, in a space of 19 states whose other
+    # states are isolated (no counts): the kept states are the images, the renumbered matrix is the same, the mapping
+    # goes to the images -- sizes beyond what the enumerated scope reaches (sorting / partitioning code paths)
+    if int(A.sum()) > 0 and len(alts) == 1:
+        nb = 19
+        off = (int(A.sum()) + n) % 3
+        pos = [off + 2 + 5 * i + (i * i) % 3 for i in range(n)]          # strictly increasing, < 19 for n <= 4
+        if pos[-1] < nb:
+            Ab = np.zeros((nb, nb), dtype=np.int64)
+            for i in range(n):
+                for j in range(n):
+                    Ab[pos[i], pos[j]] = A[i, j]
+            for tag in [t for t in tags if t in ("ndarray", "csr_matrix")]:
+                for variant, ren in (("ren", True), ("inp", False)):
+                    e = alts[0][variant]
+                    if ren:
+                        exp = {"shape": [e["m"], e["m"]], "M": list(e["M"]),
+                               "orig": [[a, pos[b]] for a, b in e["orig"]], "mapped": [[pos[a], b] for a, b in e["mapped"]]}
+                    else:
+                        Mb = np.zeros((nb, nb), dtype=np.int64)
+                        Ms = np.array(e["M"]).reshape(n, n)
+                        for i in range(n):
+                            for j in range(n):
+                                Mb[pos[i], pos[j]] = Ms[i, j]
+                        exp = {"shape": [nb, nb], "M": [int(v) for v in Mb.ravel()],
+                               "orig": [[pos[a], pos[b]] for a, b in e["orig"]], "mapped": [[pos[a], pos[b]] for a, b in e["mapped"]]}
+                    site = "trim_disconnected/%s/%s/embedded-in-19-states" % (tag, "renumber" if ren else "inplace")
+                    xb = Ab.copy() if tag == "ndarray" else classes[tag](Ab)
+                    try:
+                        mapping, out = trim_disconnected(xb, threshold=thr, renumber_states=ren)
+                        got = _observe(mapping, out)
+                    except Exception as ex:
+                        bad.append((site + "/raised-" + type(ex).__name__, "%s: %s" % (type(ex).__name__, ex)))
+                        continue
+                    for asp in ("shape", "M", "orig", "mapped"):
+                        if got[asp] != exp[asp]:
+                            bad.append((site + "/" + {"shape": "matrix", "M": "matrix", "orig": "to_original", "mapped": "to_mapped"}[asp],
+                                        {"got": got[asp], "expected": exp[asp], "positions": pos}))
+                            break
     ks = set(chosen.values())
     if len(ks) > 1:
         for tag in tags:
